@@ -104,3 +104,50 @@ Proof.
   exact (PDet_parse_dimacs fuel k maxd ih lrs_init v v r1 r2 eq_refl Hw Hw Hb Hlen Hr1 Hr2).
 Qed.
 Print Assumptions C01_dimacs_two_runs_partial.
+
+(* ------------------------------------------------------------------ *)
+(* The DIMACS family and solver logs, end to end (CnfSafe.v): every admissible run of the whole parser
+   programs finishes normally (never relies on buffering it has not established, never panics, never runs out of
+   fuel) and all admissible runs agree — so for every honest source, every schedule of short reads and Interrupted
+   results, every chunk size and every amount of BufReader leftovers the concrete run returns the value of the
+   simple run on the stream the source delivers. *)
+From Flussab Require Import Cnf CnfProofs Hoare CnfSafe.
+
+Theorem C01_dimacs_any_chunking : forall fuel k maxd ignore_header (sr : source) (c : N),
+  NoLie (events sr) -> 1 <= c ->
+  Forall (fun b => b < 256) (fst (stream_of sr)) -> nlen (fst (stream_of sr)) < 2 ^ 62 ->
+  (length (fst (stream_of sr)) < fuel)%nat ->
+  let p := parse_dimacs fuel k maxd ignore_header lrs_init in
+  exists a v' s', srun p (view_init (fst (stream_of sr)) (snd (stream_of sr))) = ADone a v' /\
+                  crun p (set_chunk (reader_init sr) c) = CDone a s'.
+Proof. exact parse_dimacs_any_chunking. Qed.
+Print Assumptions C01_dimacs_any_chunking.
+
+Theorem C01_log_any_chunking : forall fuel maxd ignore_unknown (sr : source) (c : N),
+  NoLie (events sr) -> 1 <= c ->
+  Forall (fun b => b < 256) (fst (stream_of sr)) -> nlen (fst (stream_of sr)) < 2 ^ 62 ->
+  (length (fst (stream_of sr)) < fuel)%nat ->
+  let p := parse_log fuel maxd ignore_unknown lrs_init in
+  exists a v' s', srun p (view_init (fst (stream_of sr)) (snd (stream_of sr))) = ADone a v' /\
+                  crun p (set_chunk (reader_init sr) c) = CDone a s'.
+Proof. exact parse_log_any_chunking. Qed.
+Print Assumptions C01_log_any_chunking.
+
+(* two sources delivering the same stream in different ways, two chunk sizes: the same parse *)
+Theorem C01_dimacs_two_sources : forall fuel k maxd ignore_header (sr1 sr2 : source) (c1 c2 : N),
+  NoLie (events sr1) -> NoLie (events sr2) -> 1 <= c1 -> 1 <= c2 -> stream_of sr1 = stream_of sr2 ->
+  Forall (fun b => b < 256) (fst (stream_of sr1)) -> nlen (fst (stream_of sr1)) < 2 ^ 62 ->
+  (length (fst (stream_of sr1)) < fuel)%nat ->
+  let p := parse_dimacs fuel k maxd ignore_header lrs_init in
+  exists a s1 s2, crun p (set_chunk (reader_init sr1) c1) = CDone a s1 /\ crun p (set_chunk (reader_init sr2) c2) = CDone a s2.
+Proof. exact parse_dimacs_two_sources. Qed.
+Print Assumptions C01_dimacs_two_sources.
+
+Theorem C01_log_two_sources : forall fuel maxd ignore_unknown (sr1 sr2 : source) (c1 c2 : N),
+  NoLie (events sr1) -> NoLie (events sr2) -> 1 <= c1 -> 1 <= c2 -> stream_of sr1 = stream_of sr2 ->
+  Forall (fun b => b < 256) (fst (stream_of sr1)) -> nlen (fst (stream_of sr1)) < 2 ^ 62 ->
+  (length (fst (stream_of sr1)) < fuel)%nat ->
+  let p := parse_log fuel maxd ignore_unknown lrs_init in
+  exists a s1 s2, crun p (set_chunk (reader_init sr1) c1) = CDone a s1 /\ crun p (set_chunk (reader_init sr2) c2) = CDone a s2.
+Proof. exact parse_log_two_sources. Qed.
+Print Assumptions C01_log_two_sources.
